@@ -27,14 +27,24 @@ func importPub(t *rapid.T, p ref.Pt, route string) *secec.PublicKey {
 		err error
 	)
 	switch route {
+	// byte-slice routes: like the point routes below, the caller goes on using (here: overwrites) the
+	// buffer it passed in; encodings cached at construction must be the key's own
 	case "uncompressed":
-		k, err = secec.NewPublicKey(p.Uncompressed())
+		src := p.Uncompressed()
+		k, err = secec.NewPublicKey(src)
+		overwrite(src)
 	case "compressed":
-		k, err = secec.NewPublicKey(p.Compressed())
+		src := p.Compressed()
+		k, err = secec.NewPublicKey(src)
+		overwrite(src)
 	case "spki":
-		k, err = secec.ParseASN1PublicKey(ref.EncodeSPKI(p))
+		src := ref.EncodeSPKI(p)
+		k, err = secec.ParseASN1PublicKey(src)
+		overwrite(src)
 	case "spki-compressed":
-		k, err = secec.ParseASN1PublicKey(append(append([]byte(nil), ref.SPKIPrefixCompressed...), p.Compressed()...))
+		src := append(append([]byte(nil), ref.SPKIPrefixCompressed...), p.Compressed()...)
+		k, err = secec.ParseASN1PublicKey(src)
+		overwrite(src)
 	case "point":
 		src := lib.Pt(p)
 		k, err = secec.NewPublicKeyFromPoint(src)
@@ -49,6 +59,12 @@ func importPub(t *rapid.T, p ref.Pt, route string) *secec.PublicKey {
 		t.Fatalf("public key import via %s failed for valid point %v: %v", route, p, err)
 	}
 	return k
+}
+
+func overwrite(b []byte) {
+	for i := range b {
+		b[i] = 0xff
+	}
 }
 
 var routes = []string{"uncompressed", "compressed", "spki", "spki-compressed", "point", "point-derived"}
@@ -292,12 +308,16 @@ func propImportPublic(t *rapid.T) {
 		err error
 	)
 	if entry == "NewPublicKey" {
-		k, err = secec.NewPublicKey(raw)
+		src := append([]byte(nil), raw...)
+		k, err = secec.NewPublicKey(src)
+		overwrite(src)
 	} else {
 		// wrap the payload in an otherwise canonical SPKI
 		bits := append([]byte{0}, raw...)
 		body := append(append([]byte(nil), ref.SPKIPrefixUncompressed[2:20]...), ref.DERTLV(0x03, bits)...)
-		k, err = secec.ParseASN1PublicKey(ref.DERTLV(0x30, body))
+		src := ref.DERTLV(0x30, body)
+		k, err = secec.ParseASN1PublicKey(src)
+		overwrite(src)
 	}
 	if !ok {
 		if err == nil || k != nil {
